@@ -404,6 +404,32 @@ func runC09(ctx *core.Ctx) {
 		j := i / len(binops)
 		return feCase{Op: op, A: inOf(&forms[j/nf].E), B: inOf(&forms[j%nf].E)}
 	})
+	// every single-bit boundary value 2^k-1, 2^k, 2^k+1 (also the 32-bit word
+	// boundaries inside a limb, which matter to 32x32 partial products)
+	var bitv []elemIn
+	for k := uint(0); k < 255; k++ {
+		b := new(big.Int).Lsh(big.NewInt(1), k)
+		for _, d := range []int64{-1, 0, 1} {
+			v := new(big.Int).Add(b, big.NewInt(d))
+			if v.Sign() >= 0 {
+				bitv = append(bitv, elemIn{alpha.CanonLimbs(v)})
+			}
+		}
+	}
+	ysb := []uint32{0xffffffff, 0xfffffffe, 0xfffffffb, 0x80000000, 0x7fffffff, 0x10001, 3}
+	subC09Forms.Run(ctx, len(bitv)*len(ysb), func(i int) feCase {
+		return feCase{Op: "Mult32", A: bitv[i/len(ysb)], Y: ysb[i%len(ysb)]}
+	})
+	subC09Forms.Run(ctx, len(bitv)*len(cheapUnary), func(i int) feCase {
+		return feCase{Op: cheapUnary[i%len(cheapUnary)], A: bitv[i/len(cheapUnary)]}
+	})
+	nbv := len(bitv)
+	stride := sz(ctx, 37, 5, 1)
+	subC09Forms.Run(ctx, (nbv/stride)*nbv*len(binops), func(i int) feCase {
+		op := binops[i%len(binops)]
+		j := i / len(binops)
+		return feCase{Op: op, A: bitv[(j/nbv)*stride], B: bitv[j%nbv]}
+	})
 	// Mult32 chains
 	thens := []string{"Square", "Negate", "AddSelf", "SubFromZero", "MulSelf"}
 	chainYs := []uint32{0xffffffff, 0xfffffffe, 1 << 31, 19, 1}
